@@ -19,7 +19,7 @@ from . import _idx
 ID = "C10"
 LEVEL = "exploration"
 RUNS = {"quick": 260, "thorough": 9000}
-WALL_CAP = {"quick": 280, "thorough": 3000}
+WALL_CAP = {"quick": 280, "thorough": 1500}
 EVALS_FROM_STATS = True
 RULE = (
     "case = seeded world (+ a template and pattern for missing destinations) + db create, then 1-4 steps "
